@@ -98,6 +98,8 @@ func scriptedSessions() []sessionSpec {
 				}
 			}
 		}
+		// session lifecycle: the same identity connects again while its first session is still being served
+		out = append(out, sessionSpec{Part: "a", Chain: chain, Dup: true, Letters: []string{"NewBlockMsg(own-frontier)"}})
 		for _, t := range forgedTags {
 			for _, u := range forgedTags {
 				out = append(out, sessionSpec{Part: "a", Chain: chain, Letters: []string{"NewBlockHashesMsg([forged:" + t + "])"},
@@ -422,6 +424,9 @@ func runPartA(c *xs.Ctx, r *xs.Result) {
 
 func codeNamesOf(s sessionSpec) string {
 	var n []string
+	if s.Dup {
+		n = append(n, "same-identity-reconnect")
+	}
 	for _, l := range s.Letters {
 		n = append(n, lookupLetter(l).CodeName+"/"+lookupLetter(l).Class)
 	}
